@@ -62,6 +62,8 @@ pub struct CM {
 pub struct CS {
     pub seq: Seq,
     pub text: String,
+    /// a sequence of multi-byte elements (decoded through serde's sequence visitor)
+    pub nums: Vec<u64>,
 }
 
 #[derive(Clone, Copy, Debug, PartialEq, Eq, Hash, PartialOrd, Ord, Serialize)]
@@ -372,6 +374,10 @@ pub enum EvOp {
     /// locally), then - in the same frame - the given event.
     EmitCAfterBad(u8, CK, Option<u8>),
     Connect(u8),
+    /// The client's transport spends four frames in `Connecting` before it is `Connected`.
+    ConnectSlowly(u8),
+    /// The backend re-inserts `ConnectedClient` on a live connection (e.g. to change `max_size`).
+    TouchConnection(u8),
     Disconnect(u8),
     /// Custom authorization: insert `AuthorizedClient` on the client's connection entity.
     Authorize(u8),
@@ -413,6 +419,8 @@ impl EvOp {
                 r.map(|s| format!(" ref e{}", s + 1)).unwrap_or_default()
             ),
             EvOp::Connect(c) => format!("connect c{c}"),
+            EvOp::ConnectSlowly(c) => format!("connect c{c} after four frames in Connecting"),
+            EvOp::TouchConnection(c) => format!("re-insert ConnectedClient on c{c}'s connection"),
             EvOp::Disconnect(c) => format!("disconnect c{c}"),
             EvOp::Authorize(c) => format!("authorize c{c}"),
             EvOp::StopServer => "stop server".into(),
@@ -580,7 +588,8 @@ impl EvCell {
                         })
                     })
             }
-            EvOp::Connect(c) => !Self::connected(x, c as usize) && x.sim.server_running(),
+            EvOp::Connect(c) | EvOp::ConnectSlowly(c) => !Self::connected(x, c as usize) && x.sim.server_running(),
+            EvOp::TouchConnection(c) => Self::connected(x, c as usize),
             EvOp::StopServer => x.sim.server_running(),
             EvOp::StartServer => !x.sim.server_running(),
             EvOp::StartServerWith(c) => !x.sim.server_running() && !Self::connected(x, c as usize),
@@ -624,6 +633,12 @@ impl EvCell {
             EvOp::Nop => {}
             EvOp::World(op) => x.sim.apply_op(op),
             EvOp::Connect(c) => x.sim.connect(c as usize),
+            EvOp::ConnectSlowly(c) => x.sim.connect_slowly(c as usize, 4),
+            EvOp::TouchConnection(c) => {
+                let conn = x.sim.clients[c as usize].conn.unwrap();
+                let max_size = x.sim.clients[c as usize].max_size;
+                x.sim.server.world_mut().entity_mut(conn).insert(ConnectedClient { max_size });
+            }
             EvOp::Disconnect(c) => {
                 if let Some(conn) = x.sim.clients[c as usize].conn {
                     x.closed_conns.insert(conn.to_bits());
@@ -758,7 +773,7 @@ impl EvCell {
                         w.send_event(CM { seq: s, e: client_entity.expect("CM needs a reference") });
                     }
                     CK::CS => {
-                        w.send_event(CS { seq: s, text: "variable".into() });
+                        w.send_event(CS { seq: s, text: "variable".into(), nums: vec![1, 300, u64::MAX] });
                     }
                     CK::CT => match client_entity {
                         Some(e) => w.client_trigger_targets(CT(s), e),
